@@ -469,6 +469,24 @@ def bspResize (p : PSlice) (size : Nat) : PSlice :=
 /-- the elements `[0:len)` of a slice -/
 def PSlice.elems (p : PSlice) : List Byte := p.cells.take p.len
 
+/-! ### a statement that runs after the deferred Put -/
+
+/-- `processSegments` with `defer clear(*buf)` registered BEFORE `defer BufPool.Put(buf)`: defers
+run last-in-first-out, so the buffer is Put first and cleared (`k` cells) afterwards -/
+def processSegmentsClearAfterPut (enc : Bool) (hb S k : Nat) (data : List Byte) : List Instr :=
+  processSegmentsProg enc hb S data ++ [.write hb 0 (List.replicate k 0)]
+
+/-- witness system: stream 0 with the late clear; stream 1 takes a buffer, writes, reads back -/
+def afterPutWitnessProgs : Nat → List Instr
+  | 0 => processSegmentsClearAfterPut true 0 segmentSize 4 [1, 2]
+  | 1 => [.get, .write 0 0 [9, 9], .yield, .use ⟨0, 0, 2⟩, .put 0]
+  | _ => []
+
+/-- stream 0 up to and including its Put; stream 1 Gets the buffer and writes its data; stream 0's
+clear; stream 1 reads its data back -/
+def afterPutWitnessSched : List (Nat × Option Nat) :=
+  List.replicate 6 (0, none) ++ [(1, some 0), (1, none), (0, none), (1, none), (1, none)]
+
 /-! ### `ByteSlicePool` callers as threads of the ownership model -/
 
 /-- `Resize(orig, size)` as buffer traffic. Within the capacity: none (the result is `orig[0:size]`,
